@@ -272,6 +272,11 @@ func TestRoundTrip(t *testing.T) {
 			sv, err := fcl.Get(ctx, name)
 			obs("fileclient", valOf(sv), err == nil)
 		}
+		if i%4 == 3 || i%8 == 0 {
+			// the name has a future
+			future(t, s, res, w, obs, name, what, val, cpath, i)
+			cl = setec.Client{Server: s.srv.URL}
+		}
 		os.RemoveAll(filepath.Dir(cpath))
 		if i < 3 {
 			res.Sample(map[string]any{"class": what, "len": len(val), "sha256/8": sum(val)})
@@ -282,6 +287,109 @@ func TestRoundTrip(t *testing.T) {
 	res.Set("values", n)
 	res.Set("bytes", total)
 	res.Write(t)
+}
+
+// future continues the journey of a name whose value has gone through every hop once (RoundTrip.tla, "newver" and
+// "recreate"): a later version with other, shorter bytes reaches a running store, its cache file and the file client; the
+// secret deleted and put again (version numbers start over) reaches them too.
+func future(t *testing.T, s *sys, res *vh.Result, w *vh.NDJSONWriter, obs func(string, []byte, bool), name, what string, val []byte, cpath string, i int) {
+	ctx := context.Background()
+	cl := setec.Client{Server: s.srv.URL}
+	quiet := func(string, ...any) {}
+	put := func(journey string, v []byte, activate bool) (api.SecretVersion, bool) {
+		ver, err := cl.Put(ctx, name, v)
+		if err == nil && activate {
+			err = cl.Activate(ctx, name, ver)
+		}
+		w.Put(Event{"ev": "put", "journey": journey, "class": what + "/" + journey, "len": len(v), "sum": sum(v), "ok": map[bool]string{true: "t", false: "f"}[err == nil]})
+		if err != nil {
+			res.Violate("roundtrip put "+what+"/"+journey, fmt.Sprintf("put of a %d-byte value (%s, %s) failed: %v", len(v), what, journey, err), nil)
+		}
+		return ver, err == nil
+	}
+	get := func(hop string) {
+		sv, err := cl.Get(ctx, name)
+		obs(hop, valOf(sv), err == nil)
+	}
+	fileclient := func() {
+		fcl, err := setec.NewFileClient(cpath)
+		if err != nil {
+			obs("fileclient", nil, false)
+			return
+		}
+		sv, err := fcl.Get(ctx, name)
+		obs("fileclient", valOf(sv), err == nil)
+	}
+	// --- a newer version with other bytes, shorter where possible (the cache document shrinks)
+	val2 := append([]byte(nil), val[:len(val)/2]...)
+	if len(val) < 2 {
+		val2 = append(append([]byte(nil), val...), []byte(" and more")...)
+	}
+	fc, err := setec.NewFileCache(cpath)
+	if err != nil {
+		t.Fatal(err)
+	}
+	st, err := setec.NewStore(ctx, setec.StoreConfig{Client: cl, Secrets: []string{name}, Cache: fc, PollInterval: -1, Logf: quiet})
+	if err != nil {
+		res.Violate("roundtrip future "+what, fmt.Sprintf("a store on the cache file of a %d-byte value (%s) cannot be constructed: %v", len(val), what, err), nil)
+		return
+	}
+	ver2, ok := put("newver", val2, true)
+	if !ok {
+		st.Close()
+		return
+	}
+	get("get")
+	sv, err := cl.GetVersion(ctx, name, ver2)
+	obs("getver", valOf(sv), err == nil)
+	rerr := st.Refresh(ctx)
+	obs("store-poll", st.Secret(name).Get(), rerr == nil)
+	cb, cfound := cacheValue(cpath, name)
+	obs("cache", cb, cfound)
+	st.Close()
+	fc2, _ := setec.NewFileCache(cpath)
+	c2, cancel := context.WithTimeout(ctx, 2*time.Second)
+	st2, err := setec.NewStore(c2, setec.StoreConfig{Client: deadClient{}, Secrets: []string{name}, Cache: fc2, PollInterval: -1, Logf: quiet})
+	cancel()
+	if err != nil {
+		obs("store-from-cache", nil, false)
+	} else {
+		obs("store-from-cache", st2.Secret(name).Get(), true)
+		st2.Close()
+	}
+	fileclient()
+	if i%8 != 0 {
+		return
+	}
+	// --- deleted and put again: other bytes under version numbers that start over
+	if err := cl.Delete(ctx, name); err != nil {
+		res.Violate("roundtrip delete "+what, fmt.Sprintf("deleting the secret failed: %v", err), nil)
+		return
+	}
+	val3 := append([]byte("again: "), val2...)
+	ver3, ok := put("recreate", val3, false)
+	if !ok {
+		return
+	}
+	get("get")
+	sv, err = cl.GetVersion(ctx, name, ver3)
+	obs("getver", valOf(sv), err == nil)
+	s.stop()
+	s.start(t)
+	cl = setec.Client{Server: s.srv.URL}
+	get("restart-get")
+	fc3, _ := setec.NewFileCache(cpath)
+	st3, err := setec.NewStore(ctx, setec.StoreConfig{Client: cl, Secrets: []string{name}, Cache: fc3, PollInterval: -1, Logf: quiet})
+	if err != nil {
+		obs("store-poll", nil, false)
+	} else {
+		rerr := st3.Refresh(ctx)
+		obs("store-poll", st3.Secret(name).Get(), rerr == nil)
+		st3.Close()
+	}
+	cb, cfound = cacheValue(cpath, name)
+	obs("cache", cb, cfound)
+	fileclient()
 }
 
 func valOf(sv *api.SecretValue) []byte {
